@@ -242,6 +242,10 @@ class LaplacianChannel(BaseChannel):
 
         # Handle complex input
         if torch.is_complex(x):
+            # A configured noise power (or SNR) is the total power of the complex noise: split it
+            # equally between the real and imaginary parts. An explicit scale applies per part.
+            if self.scale is None:
+                scale = scale / (2**0.5)
             noise_real = self._get_laplacian_noise(x.real.shape, x.device) * scale
             noise_imag = self._get_laplacian_noise(x.imag.shape, x.device) * scale
             noise = torch.complex(noise_real, noise_imag)
